@@ -108,8 +108,10 @@ impl From<Evaluated<'_>> for Value {
 }
 
 pub fn to_number_value(number: f64) -> Result<Value, Error> {
-    if number.fract() == 0.0 {
+    if number.fract() == 0.0 && number >= -9223372036854775808.0 && number < 9223372036854775808.0 {
         Ok(Value::Number(Number::from(number as i64)))
+    } else if number.fract() == 0.0 && number >= 0.0 && number < 18446744073709551616.0 {
+        Ok(Value::Number(Number::from(number as u64)))
     } else {
         Number::from_f64(number)
             .ok_or_else(|| {
